@@ -14,8 +14,8 @@
 
 using namespace Vector::BLF;
 
-struct MCfg { bool writing; uint32_t C; long S; bool shipped; long B; uint32_t Q; int level; int stall_every;
-    std::string str() const { std::ostringstream s; s << (writing ? "write" : "read") << " C=" << C << " S=" << S << " B=" << (shipped ? 0x20000 : B) << " Q=" << (shipped ? 10 : Q) << " level=" << level << " stall_every=" << stall_every; return s.str(); } };
+struct MCfg { bool writing; uint32_t C; long S; bool shipped; long B; uint32_t Q; int level; int stall_every; bool damaged;
+    std::string str() const { std::ostringstream s; s << (writing ? "write" : "read") << " C=" << C << " S=" << S << " B=" << (shipped ? 0x20000 : B) << " Q=" << (shipped ? 10 : Q) << " level=" << level << " stall_every=" << stall_every << (damaged ? " damaged-record" : ""); return s.str(); } };
 
 static MCfg make_cfg(uint64_t seed, long ci) {
     Rng r(Rng::mix(seed ^ 0xC12, (uint64_t)ci));
@@ -26,6 +26,7 @@ static MCfg make_cfg(uint64_t seed, long ci) {
     c.S = r.chance(1, 2) ? (long)c.C / 8 : (long)c.C / 3 + r.below(100);
     c.level = r.chance(1, 2) ? 1 : 0;
     c.stall_every = 1 + r.below(7);
+    c.damaged = !c.writing && (ci % 8) >= 4;
     return c;
 }
 
@@ -35,7 +36,9 @@ static Meas run_one(const MCfg & c, int N, const std::string & path, uint64_t ss
     Meas m{}; long perC = std::max<long>(1, (long)c.C / (c.S + 48)); long nobj = (long)N * perC;
     long B = c.B, S = c.S + 48;
     if (!c.writing) {
-        twin::Bytes stream; for (long i = 0; i < nobj; i++) { twin::Bytes o = twin::app_text(1000 + (uint32_t)i, (size_t)c.S); stream.insert(stream.end(), o.begin(), o.end()); }
+        twin::Bytes stream; for (long i = 0; i < nobj; i++) {
+            if (c.damaged && i == nobj / 4) { twin::Bytes bad = twin::unknown_object(1, 8); stream.insert(stream.end(), bad.begin(), bad.end()); }   // objectSize below the header size: the decoder gives up here
+            twin::Bytes o = twin::app_text(1000 + (uint32_t)i, (size_t)c.S); stream.insert(stream.end(), o.begin(), o.end()); }
         twin::save(path, twin::wrap(stream, c.C, c.level));
     }
     size_t base = alloc_live();
@@ -64,7 +67,9 @@ static Meas run_one(const MCfg & c, int N, const std::string & path, uint64_t ss
                 if (i % c.stall_every == 0) sample(true);      // app is starved: when it runs, every worker is blocked
             }
             m.objects = i;
-            if (i != nobj && m.err.empty()) m.err = "delivered " + std::to_string(i) + " of " + std::to_string(nobj);
+            long expect = c.damaged ? nobj / 4 : nobj;
+            if (i != expect && m.err.empty()) m.err = "delivered " + std::to_string(i) + " of " + std::to_string(expect);
+            if (c.damaged) for (int k = 0; k < 300; k++) sample(false);     // the application lingers after end of data: every poll lets the workers run as far as they can
             f.close();
         } else {
             f.compressionLevel = c.level; f.setDefaultLogContainerSize(c.C);
